@@ -68,7 +68,7 @@ static volatile int insec[MAXM];
 static int n_qskip, n_unjoined;
 static int n_overlap, n_miss, n_cross, n_double, n_rootkill, n_stale, n_running, n_maxpar;
 static int nthreads, nmutex;
-static var* thr;             /* the Thread objects: an array in the main thread's frame (a root of its collector) */
+static var thr[MAXT];        /* handles of the Thread objects (not a root: each creator keeps its own in kids[], in its frame) */
 static var shared_arr;       /* an Array every thread may use under mx[0] (work kind 8); case flag s: owned by the main thread's collector */
 static int managed_threads;  /* case flag g: Thread objects are new(Thread, ..), i.e. owned by the main thread's collector */
 static var targ[MAXT];
@@ -456,9 +456,7 @@ static void one_case(char* line) {
   char f_nm_copy[32]; snprintf(f_nm_copy, sizeof f_nm_copy, "%s", f_nm);
   nmutex = atoi(f_nm); if (nmutex > MAXM) nmutex = MAXM;
   managed_threads = strchr(f_nm, 'g') != NULL;
-  var thr_frame[MAXT];
-  memset(thr_frame, 0, sizeof thr_frame);
-  thr = thr_frame;
+  memset(thr, 0, sizeof thr);
   uint64_t seed = 1469598103934665603ULL;
   for (char* p = f_sched; *p; p++) seed = mix(seed, (uint64_t)*p);
   struct Node* progs[MAXT];
